@@ -3,6 +3,8 @@ import ast
 
 from xlsa import Unmodelled, AnchorMissing
 from xlsa.load import walk_local, names_in, dotted
+from xlsa.consteval import Ref
+from xlsa.guards import Interp, Rec, PyModel, Opaque
 from xlsa import flow
 from .common import func_params, value_returns, last_return, XLERR, XLT, raise_class
 from . import c04
@@ -26,24 +28,82 @@ def _reg(ctx, name):
     raise AnchorMissing(f'registered function {name}')
 
 
-def _is_number_filter(ctx, call, m):
-    """filter(Number.is_type, X) / [x for x in X if Number.is_type(x)]"""
-    if isinstance(call, ast.Call) and isinstance(call.func, ast.Name) and call.func.id == 'filter' and len(call.args) == 2:
-        return ctx.res.resolve(call.args[0], m) == XLT + 'Number.is_type'
-    if isinstance(call, (ast.ListComp, ast.GeneratorExp)):
-        return any(isinstance(c, ast.Call) and ctx.res.resolve(c.func, m) == XLT + 'Number.is_type'
-                   for g in call.generators for i in g.ifs for c in ast.walk(i))
-    return False
+def _num(v):
+    return Rec(cls=XLT + 'Number', value=v, truthy=bool(v))
 
 
-def _filtered_names(ctx, fn, m):
-    """Local names bound to a Number.is_type-filtered collection (possibly wrapped in list())."""
-    out = set()
-    for a in walk_local(fn):
-        if isinstance(a, ast.Assign) and isinstance(a.targets[0], ast.Name):
-            if any(_is_number_filter(ctx, x, m) for x in ast.walk(a.value)):
-                out.add(a.targets[0].id)
-    return out
+def _text(v):
+    return Rec(cls=XLT + 'Text', value=v, truthy=bool(v))
+
+
+def _blank():
+    return Rec(cls=XLT + 'Blank', value=None, truthy=False)
+
+
+class _Arr(PyModel):
+    """Abstract range array: a shape and flat items."""
+
+    def __init__(self, shape, items=None, label=''):
+        self.shape = shape
+        self.size = shape[0] * shape[1]
+        self.flat = list(items) if items is not None else [1] * self.size
+        self.values = self
+        self.label = label
+        self.cls = XLT + 'Array'
+
+    def __len__(self):
+        return self.shape[0]
+
+    def __iter__(self):
+        return iter(self.flat)
+
+
+def _models(ctx, log=None):
+    def number_is_type(v):
+        if isinstance(v, Rec):
+            return bool(v.f.get('cls')) and ctx.res.is_subclass(v.f['cls'], XLT + 'Number')
+        return isinstance(v, (int, float))
+
+    def is_blank(v):
+        return v is None or (isinstance(v, str) and v == '') or (isinstance(v, Rec) and v.f.get('cls') == XLT + 'Blank')
+
+    def is_error(v):
+        return isinstance(v, Rec) and bool(v.f.get('cls')) and ctx.res.is_subclass(v.f['cls'], XLERR + 'ExcelError')
+
+    def concat(*a, **k):
+        if log is not None:
+            log.append('product')
+        return Opaque('concatenated')
+    return {XLT + 'Number.is_type': number_is_type, XLT + 'Blank.is_blank': is_blank, XLERR + 'ExcelError.is_error': is_error,
+            'ext:pandas.concat': concat}
+
+
+def _isinst(ctx):
+    def isinst(val, refs):
+        refs = refs if isinstance(refs, tuple) else (refs,)
+        cls = val.f.get('cls') if isinstance(val, Rec) else getattr(val, 'cls', None)
+        if any(r == 'builtin:list' for r in refs) and isinstance(val, list):
+            return True
+        if any(r == 'builtin:tuple' for r in refs) and isinstance(val, tuple):
+            return True
+        return bool(cls) and any(r and ctx.res.is_subclass(cls, r) for r in refs)
+    return isinst
+
+
+def _body_call(ctx, f, items, log=None):
+    """Partially evaluate the body of an aggregate (below the validate_args wrapper) on a tuple of items."""
+    vp = next((p for p in f.params if p.kind == 'varpos'), None)
+    if vp is None:
+        raise Unmodelled(f'{f.name} has no var-positional parameter')
+    it = Interp(ctx.a, f.module, {vp.name: tuple(items)}, isinstance_fn=_isinst(ctx), call_models=_models(ctx, log),
+                inline_pkg=True, scope_fn=f.node)
+    return it.run(f.node.body)
+
+
+def _val(v):
+    if isinstance(v, Rec) and 'value' in v.f:
+        return v.f['value']
+    return v
 
 
 def rule_1(ctx):
@@ -53,154 +113,110 @@ def rule_1(ctx):
         ctx.res.resolve(x, f.module) == XLT + 'XlNumber' for x in ast.walk(vp.annotation) if isinstance(x, (ast.Name, ast.Attribute)))
     ctx.expect(ok, f.node, 'SUM folds a coercing Tuple[XlNumber]',
                'SUM no longer receives its items through the number-coercing tuple annotation: blanks/text from ranges reach the sum')
-    r = last_return(f.node)
-    ok = r is not None and isinstance(r.value, ast.Call) and isinstance(r.value.func, ast.Name) and r.value.func.id == 'sum' \
-        and len(r.value.args) == 1 and names_in(r.value.args[0]) == {vp.name if vp else ''}
-    ctx.expect(ok, f.node, 'SUM returns sum(all items)', 'SUM does not return the sum over all of its (converted) items')
-    for name in ('AVERAGE', 'MIN', 'MAX'):
+    for items, want in (((1, 2, 3.5), 6.5), ((), 0), ((4,), 4)):
+        out = _body_call(ctx, f, items)
+        ctx.expect(out.end == 'return' and _val(out.value) == want, f.node, f'SUM{items!r}', f'SUM{items!r} gives {out.end} {out.value!r}, expected {want}')
+    rows = {
+        'AVERAGE': [((2, 4), 3), ((2, 'x', 4), 3), ((2, _text('x'), _blank(), 4), 3), ((2, None, 4), 3), ((5,), 5), ((), 0)],
+        'MIN': [((3, 1, 2), 1), ((3, 'x', 1), 1), ((_text('a'), 3, _blank(), 7), 3), ((), 0)],
+        'MAX': [((3, 1, 2), 3), ((3, 'x', 9), 9), ((_text('z'), 3, _blank(), 7), 7), ((), 0)],
+    }
+    for name, cases in rows.items():
         f = _reg(ctx, name)
-        fn = f.node
-        fold = {'AVERAGE': 'sum', 'MIN': 'min', 'MAX': 'max'}[name]
-        calls = [c for c in flow.calls_in(fn) if isinstance(c.func, ast.Name) and c.func.id == fold]
-        if not calls:
-            ctx.bad(fn, f'{name} folds with {fold}()', f'{name} no longer folds with {fold}()')
-            continue
-        filt = _filtered_names(ctx, fn, f.module)
-        for c in calls:
-            arg = c.args[0] if c.args else None
-            ok = arg is not None and (_is_number_filter(ctx, arg, f.module) or (isinstance(arg, ast.Name) and arg.id in filt)
-                                      or any(_is_number_filter(ctx, x, f.module) for x in ast.walk(arg)))
-            ctx.expect(ok, c, f'{name}: input of {fold}() is filtered with Number.is_type',
-                       f'{name} folds items that were not filtered to numbers: a blank or text cell inside the range makes the '
-                       f'result wrong or #VALUE!')
-        if name == 'AVERAGE':
-            r = last_return(fn)
-            ok = False
-            if r is not None and isinstance(r.value, ast.BinOp) and isinstance(r.value.op, ast.Div):
-                num, den = r.value.left, r.value.right
-                ok = isinstance(den, ast.Call) and isinstance(den.func, ast.Name) and den.func.id == 'len' \
-                    and isinstance(num, ast.Call) and ast.dump(num.args[0]) == ast.dump(den.args[0])
-            ctx.expect(ok, fn, 'AVERAGE divides by the number of items it sums',
-                       'numerator and denominator of AVERAGE range over different collections')
-    ctx.floor(6, 'fold inputs')
+        wrong = []
+        for items, want in cases:
+            try:
+                out = _body_call(ctx, f, items)
+            except Unmodelled as exc:
+                raise Unmodelled(f'{name}: {exc}')
+            got = _val(out.value) if out.end == 'return' else f'<{out.end} {out.value!r}>'
+            if got != want:
+                wrong.append((items, got, want))
+        ctx.expect(not wrong, f.node, f'{name} folds exactly the numeric items',
+                   f'{name}{wrong[0][0]!r} gives {wrong[0][1]!r}, expected {wrong[0][2]!r}: blanks and text among the items must be '
+                   f'ignored and every number folded' if wrong else '')
+    ctx.floor(7, 'fold decisions')
 
 
 def rule_2(ctx):
     for name in ('MIN', 'MAX', 'AVERAGE'):
         f = _reg(ctx, name)
-        fn = f.node
-        filt = _filtered_names(ctx, fn, f.module)
-        risky = []
-        for c in flow.calls_in(fn):
-            if isinstance(c.func, ast.Name) and c.func.id in ('min', 'max') and len(c.args) == 1 and not c.keywords:
-                risky.append((c, c.args[0]))
-        for b in walk_local(fn):
-            if isinstance(b, ast.BinOp) and isinstance(b.op, ast.Div) and isinstance(b.right, ast.Call) \
-                    and isinstance(b.right.func, ast.Name) and b.right.func.id == 'len':
-                risky.append((b, b.right.args[0]))
-        for node, coll in risky:
-            conds = flow.path_conditions(node)
-            guarded = False
-            for cd in conds:
-                if cd.kind != 'guard' or cd.polarity:
-                    continue
-                for x in ast.walk(cd.test):
-                    if isinstance(x, ast.Call) and isinstance(x.func, ast.Name) and x.func.id == 'len' and x.args:
-                        tested = x.args[0]
-                        same = ast.dump(tested) == ast.dump(coll)
-                        is_filtered = (isinstance(tested, ast.Name) and tested.id in filt) or _is_number_filter(ctx, tested, f.module)
-                        folds_filtered = (isinstance(coll, ast.Name) and coll.id in filt)
-                        if same and (is_filtered or not _is_number_filter(ctx, coll, f.module)):
-                            guarded = True
-                        if is_filtered and folds_filtered and same:
-                            guarded = True
-                    if isinstance(x, ast.UnaryOp) and isinstance(x.op, ast.Not) and ast.dump(x.operand) == ast.dump(coll):
-                        guarded = True
-            # the folded collection itself must be what the guard looked at
-            if _is_number_filter(ctx, coll, f.module):
-                guarded = False
-            handler = any(isinstance(p, ast.Try) for p in _ancestors(node, fn))
-            kind = 'min()/max() of an empty sequence' if isinstance(node, ast.Call) else 'division by len() == 0'
-            ctx.expect(guarded or handler, node, f'{name}: empty fold guarded on the filtered collection',
-                       f'{name}: {kind} is only guarded on the unfiltered arguments: when no argument is numeric '
-                       f'({name}("a")) the fold raises ValueError/ZeroDivisionError instead of returning 0')
+        wrong = []
+        for items in (('a',), (_text('a'), _blank()), (None,)):
+            out = _body_call(ctx, f, items)
+            ok = out.end == 'return' and _val(out.value) == 0
+            ok = ok or (out.end == 'raise' and isinstance(out.value, (Ref, Rec)) and is_excel(ctx, out.value))
+            if not ok:
+                wrong.append((items, f'{out.end} {out.value!r}'))
+        ctx.expect(not wrong, f.node, f'{name}: empty fold guarded on the filtered collection',
+                   f'{name} over items none of which is numeric ({wrong[0][0]!r}) ends in {wrong[0][1]}: the emptiness guard looks at the '
+                   f'unfiltered arguments, so min()/max()/division runs on an empty sequence ({name}("a") raises ValueError)' if wrong else '')
     ctx.floor(3, 'empty-fold sites')
 
 
-def _ancestors(node, stop):
-    p = node._parent
-    while p is not None and p is not stop:
-        yield p
-        p = p._parent
+def is_excel(ctx, v):
+    ref = v.ref if isinstance(v, Ref) else v.f.get('cls')
+    return bool(ref) and ref.startswith('pkg:') and ctx.res.is_subclass(ref, XLERR + 'ExcelError')
 
 
 def rule_3(ctx):
     f = _reg(ctx, 'SUMPRODUCT')
-    fn = f.node
-    cmps = [c for c in walk_local(fn) if isinstance(c, ast.Compare) and len(c.ops) == 1 and isinstance(c.ops[0], (ast.NotEq, ast.Eq))]
-    deps = flow.Deps(fn)
-
-    def from_shape(e):
-        if any(isinstance(x, ast.Attribute) and x.attr == 'shape' for x in ast.walk(e)):
-            return True
-        for nm in names_in(e):
-            for a in walk_local(fn):
-                if isinstance(a, ast.Assign) and any(isinstance(t, ast.Name) and t.id == nm for t in a.targets):
-                    if isinstance(a.value, ast.Attribute) and a.value.attr == 'shape':
-                        return True
-        return False
-
-    guards = []
-    for c in cmps:
-        st = flow.stmt_of(c)
-        if isinstance(st, ast.If) and st.test is c or (isinstance(st, ast.If) and c in list(ast.walk(st.test))):
-            raises = [r for r in st.body if isinstance(r, ast.Raise)]
-            if raises and raise_class(ctx, raises[0]) == XLERR + 'ValueExcelError' and isinstance(c.ops[0], ast.NotEq):
-                guards.append((st, c))
-    ok = False
-    for st, c in guards:
-        l, r = c.left, c.comparators[0]
-        if from_shape(l) and from_shape(r):
-            # inside a loop over all arrays
-            in_loop = any(isinstance(p, ast.For) for p in _ancestors(st, fn))
-            ok = in_loop
-    ctx.expect(ok, fn, 'SUMPRODUCT rejects arrays of different shape with #VALUE!',
-               'SUMPRODUCT does not compare the shape (rows x columns) of every array with the first one: ranges with the same '
-               'number of cells but different shapes are multiplied')
-    # the guard precedes the product
-    prod = [c for c in flow.calls_in(fn) if isinstance(c.func, ast.Attribute) and c.func.attr in ('prod', 'concat', 'sum')]
-    ok2 = bool(guards) and all(flow.pos(guards[0][0]) < flow.pos(c) for c in prod)
-    ctx.expect(ok2, fn, 'shape guard precedes the product', 'the product is computed before the shapes were compared')
-    ctx.floor(2, 'shape guard facts')
+    cases = [(((3, 1), (3, 1)), 'product'), (((3, 1), (1, 3)), 'value'), (((2, 2), (4, 1)), 'value'), (((2, 3), (2, 3), (3, 2)), 'value'),
+             (((2, 3), (2, 3), (2, 3)), 'product'), (((3, 1), (4, 1)), 'value')]
+    for shapes, want in cases:
+        log = []
+        try:
+            out = _body_call(ctx, f, [_Arr(sh) for sh in shapes], log)
+        except Unmodelled as exc:
+            if 'product' in log:
+                ctx.expect(want == 'product', f.node, f'SUMPRODUCT shapes {shapes}',
+                           f'SUMPRODUCT over ranges of shapes {shapes} multiplies them; expected #VALUE! before any product '
+                           '(ranges must have the same rows x columns, not merely the same number of cells)')
+                continue
+            raise Unmodelled(f'SUMPRODUCT: {exc}')
+        if want == 'product':
+            ok = 'product' in log and not (out.end == 'raise')
+            got = f'{out.end} {out.value!r}, product computed: {"product" in log}'
+        else:
+            ok = out.end == 'raise' and isinstance(out.value, (Ref, Rec)) and (
+                (out.value.ref if isinstance(out.value, Ref) else out.value.f.get('cls')) == XLERR + 'ValueExcelError') and 'product' not in log
+            got = f'{out.end} {out.value!r}, product computed: {"product" in log}'
+        ctx.expect(ok, f.node, f'SUMPRODUCT shapes {shapes}',
+                   f'SUMPRODUCT over ranges of shapes {shapes}: {got}; expected {"the product" if want == "product" else "#VALUE! before any product"} '
+                   '(ranges must have the same rows x columns, not merely the same number of cells)')
+    ctx.floor(6, 'shape decisions')
 
 
 def rule_4(ctx):
-    for name, pred, neg in (('COUNT', XLT + 'Number.is_type', False), ('COUNTA', XLT + 'Blank.is_blank', True)):
+    rows = {
+        'COUNT': [((1, 'a', None, 2.5), 2), ((_num(1), _text('1'), _blank(), _num(0)), 2), (('a',), 0)],
+        'COUNTA': [((1, '', None, 'a'), 2), ((_num(0), _text('x'), _blank()), 2), ((0,), 1)],
+    }
+    for name, cases in rows.items():
         f = _reg(ctx, name)
-        fn = f.node
-        filters = [c for c in flow.calls_in(fn) if isinstance(c.func, ast.Name) and c.func.id == 'filter' and len(c.args) == 2]
-        ok = False
-        for c in filters:
-            a0 = c.args[0]
-            if not neg:
-                ok = ok or ctx.res.resolve(a0, f.module) == pred
-            else:
-                ok = ok or (isinstance(a0, ast.Lambda) and isinstance(a0.body, ast.UnaryOp) and isinstance(a0.body.op, ast.Not)
-                            and isinstance(a0.body.operand, ast.Call) and ctx.res.resolve(a0.body.operand.func, f.module) == pred)
-        ctx.expect(ok, fn, f'{name} counts by {"not " if neg else ""}{pred.split(":")[-1]}',
-                   f'{name} no longer counts its items with {"not " if neg else ""}{pred.split(":")[-1]}')
-        r = last_return(fn)
-        ok = r is not None and isinstance(r.value, ast.Call) and isinstance(r.value.func, ast.Name) and r.value.func.id == 'len'
-        ctx.expect(ok, fn, f'{name} returns the number of selected items', f'{name} does not return the length of the filtered list')
-        flat = [c for c in flow.calls_in(fn) if ctx.res.resolve(c.func, f.module) == 'pkg:xlfunctions.xl:flatten']
-        ctx.expect(bool(flat), fn, f'{name} flattens ranges and scalars into one list', f'{name} does not flatten its arguments')
+        wrong = []
+        for items, want in cases:
+            try:
+                out = _body_call(ctx, f, items)
+            except Unmodelled as exc:
+                raise Unmodelled(f'{name}: {exc}')
+            got = _val(out.value) if out.end == 'return' else f'<{out.end} {out.value!r}>'
+            if got != want:
+                wrong.append((items, got, want))
+        what = 'numbers' if name == 'COUNT' else 'non-empty values'
+        ctx.expect(not wrong, f.node, f'{name} counts the {what}',
+                   f'{name}{wrong[0][0]!r} gives {wrong[0][1]!r}, expected {wrong[0][2]!r}' if wrong else '')
+    # flatten keeps every item of nested lists and arrays, in order
     xm = ctx.mod('xlfunctions.xl')
     fl = xm.func('flatten')
-    rec = [c for c in flow.calls_in(fl) if isinstance(c.func, ast.Name) and c.func.id == 'flatten']
-    ctx.expect(bool(rec), fl, 'flatten recurses into nested lists', 'flatten() does not recurse into nested lists/tuples')
-    ext = [c for c in flow.calls_in(fl) if isinstance(c.func, ast.Attribute) and c.func.attr in ('extend', 'append')]
-    ctx.expect(len(ext) == 3, fl, 'flatten keeps every item (append/extend only)', 'flatten() drops or duplicates items')
-    ctx.floor(8, 'count predicates + flatten')
+    p = func_params(fl)[0]
+    arr = _Arr((2, 2), [1, 2, 3, 4])
+    for inp, want in (([1, [2, 3], (4, [5])], [1, 2, 3, 4, 5]), ([arr, 9], [1, 2, 3, 4, 9]), ([], []), ([[], [7]], [7])):
+        it = Interp(ctx.a, xm, {p: inp}, isinstance_fn=_isinst(ctx), inline_pkg=True, scope_fn=fl)
+        out = it.run(fl.body)
+        ctx.expect(out.end == 'return' and list(out.value) == want, fl, f'flatten keeps every item: {len(want)} item(s)',
+                   f'flatten({inp!r}) gives {out.value!r}, expected {want!r}')
+    ctx.floor(6, 'count predicates + flatten')
 
 
 def rule_5(ctx):
